@@ -50,6 +50,7 @@ THEOREMS_CARD = [
     "C10_noblank",
     "C10_roundtrip_card",
     "C10_roundtrip",
+    "C10_roundtrip_refuted",
 ]
 THEOREMS = THEOREMS_WRAP + THEOREMS_CARD
 
